@@ -49,7 +49,7 @@ def _contract(name, fn, op=None, min_rank=0):
         expr = ch.choose("form", forms)
         return Case(name, expr, dict(x=T.arr(sa, kind=ka), y=T.arr(sb, kind=kb)),
                     dict(ranks="%d,%d" % (len(sa), len(sb)), kinds=ka + "," + kb, form=expr.split("(")[0][:6],
-                         max_rank=max(len(sa), len(sb)), both_1d=(len(sa) == 1 and len(sb) == 1)), family="K")
+                         max_rank=max(len(sa), len(sb)), min_rank=min(len(sa), len(sb)), both_1d=(len(sa) == 1 and len(sb) == 1)), family="K")
     return s
 
 
